@@ -44,7 +44,7 @@ def body(ctx: Ctx):
     outs = ce.run_many(scens, jobs=8)
     diffs, fails, validated, hits = [], [], 0, 0
     for s, o in zip(scens, outs):
-        j = ce.judge(m, s, o)
+        j = ce.judge_confirmed(m, s, o)
         ncalls = sum(len(x) for x in s["sessions"])
         ctx.case({"workers": s["workers"], "block": s["block"], "sessions": [len(x) for x in s["sessions"]], "processes": s["_processes"]},
                  nontrivial=len(s["sessions"]) >= 2)
